@@ -23,6 +23,9 @@ HM == 3000 * Km
 SphTrenches == { << <<0, 40>>, <<-10, 70>> >>,            \* oblique, high latitude
                  << <<170, 60>>, <<190, 80>> >>,          \* crosses the +-180 meridian towards the pole
                  << <<175, -10>>, <<185, 10>> >>,         \* crosses it at the equator
+                 << <<-185, -10>>, <<-175, 10>> >>,       \* the same crossing written with longitudes below -180
+                 << <<-178, -10>>, <<-178, 10>> >>,       \* along a meridian just east of -180: dipping west it reaches over the date line
+                 << <<178, 30>>, <<179, 50>> >>,          \* just west of +180: dipping east it reaches over the date line
                  << <<0, 0>>, <<0, 10>> >>,               \* along a meridian
                  << <<-30, 75>>, <<0, 80>>, <<30, 75>> >>,\* curved, around the pole side
                  << <<10, 20>>, <<14, 24>>, <<20, 25>>, <<24, 31>> >> }
